@@ -55,7 +55,10 @@ fn parse_wkt_coords(s: &str) -> Vec<Vec<(f64, f64)>> {
                     let pts: Vec<(f64, f64)> = cur
                         .split(',')
                         .filter_map(|p| {
-                            let xs: Vec<f64> = p.split_whitespace().filter_map(|t| t.parse().ok()).collect();
+                            let xs: Vec<f64> = p
+                                .split_whitespace()
+                                .filter_map(|t| t.parse().ok())
+                                .collect();
                             if xs.len() == 2 {
                                 Some((xs[0], xs[1]))
                             } else {
@@ -79,14 +82,19 @@ fn parse_wkt_coords(s: &str) -> Vec<Vec<(f64, f64)>> {
 }
 
 fn decode_wkb(hex: &str) -> Option<geo::Geometry<f64>> {
-    let bytes: Option<Vec<u8>> = (0..hex.len() / 2).map(|i| u8::from_str_radix(&hex[2 * i..2 * i + 2], 16).ok()).collect();
+    let bytes: Option<Vec<u8>> = (0..hex.len() / 2)
+        .map(|i| u8::from_str_radix(&hex[2 * i..2 * i + 2], 16).ok())
+        .collect();
     let bytes = bytes?;
     let mut cur = std::io::Cursor::new(bytes);
     wkb::wkb_to_geom(&mut cur).ok()
 }
 
 fn same_coords(a: &[(f64, f64)], b: &[(f32, f32)]) -> bool {
-    a.len() == b.len() && a.iter().zip(b.iter()).all(|(p, q)| close(p.0, q.0 as f64, 1e-6) && close(p.1, q.1 as f64, 1e-6))
+    a.len() == b.len()
+        && a.iter()
+            .zip(b.iter())
+            .all(|(p, q)| close(p.0, q.0 as f64, 1e-6) && close(p.1, q.1 as f64, 1e-6))
 }
 
 pub fn check_net(scratch: &Scratch, net: &Net, ni: usize, tier: Tier, st: &mut Stats) {
@@ -99,14 +107,35 @@ pub fn check_net(scratch: &Scratch, net: &Net, ni: usize, tier: Tier, st: &mut S
     let spec = {
         let mut s = AppSpec::simple(net.clone());
         // identifier table: row i belongs to vertex i; some tables hold an empty identifier in a middle row
-        s.uuids = Some((0..n).map(|i| if i == 1 && n >= 3 && (ni % 4 == 1 || ni % 4 == 2) { String::new() } else { format!("id-{}-{}", i * 7 + 3, ni) }).collect());
+        s.uuids = Some(
+            (0..n)
+                .map(|i| {
+                    if i == 1 && n >= 3 && (ni % 4 == 1 || ni % 4 == 2) {
+                        String::new()
+                    } else {
+                        format!("id-{}-{}", i * 7 + 3, ni)
+                    }
+                })
+                .collect(),
+        );
         s
     };
     let geoms: Vec<Vec<(f32, f32)>> = (0..m).map(|e| geometry(&spec, e)).collect();
     let dir = scratch.path.join(format!("n{}", ni));
     let _ = std::fs::create_dir_all(&dir);
     let write_geoms = |path: &std::path::Path, rows: usize| {
-        let s: String = (0..rows).map(|e| format!("LINESTRING ({})\n", geoms[e].iter().map(|(x, y)| format!("{} {}", x, y)).collect::<Vec<_>>().join(", "))).collect();
+        let s: String = (0..rows)
+            .map(|e| {
+                format!(
+                    "LINESTRING ({})\n",
+                    geoms[e]
+                        .iter()
+                        .map(|(x, y)| format!("{} {}", x, y))
+                        .collect::<Vec<_>>()
+                        .join(", ")
+                )
+            })
+            .collect();
         std::fs::write(path, s).expect("write");
     };
     let gfile = dir.join("geometries.txt");
@@ -116,7 +145,13 @@ pub fn check_net(scratch: &Scratch, net: &Net, ni: usize, tier: Tier, st: &mut S
     // plain for odd nets, gzip for even ones (the readers differ)
     // every third table has rows ending in CR LF (a table written on another system): the identifiers are the rows without it
     let eol = if ni % 3 == 0 { "\r\n" } else { "\n" };
-    let utext = spec.uuids.as_ref().unwrap().iter().map(|u| format!("{}{}", u, eol)).collect::<String>();
+    let utext = spec
+        .uuids
+        .as_ref()
+        .unwrap()
+        .iter()
+        .map(|u| format!("{}{}", u, eol))
+        .collect::<String>();
     let ufile = if ni % 2 == 0 {
         let p = dir.join("uuids.txt.gz");
         let f = std::fs::File::create(&p).expect("create");
@@ -131,13 +166,29 @@ pub fn check_net(scratch: &Scratch, net: &Net, ni: usize, tier: Tier, st: &mut S
     };
     let world = World::distance(net.clone());
     let weights: HashMap<String, f64> = [("distance".to_string(), 1.0)].into_iter().collect();
-    let rates = [("distance".to_string(), crate::world::sw::Rate::Raw.real())].into_iter().collect::<HashMap<_, _>>();
-    let algos = [Algo::Dijkstra, Algo::SingleVia { k: 3, under: Box::new(Algo::Dijkstra), sim: Some(crate::props::search_common::Sim::EdgeCos(0.99)), term: None }];
+    let rates = [("distance".to_string(), crate::world::sw::Rate::Raw.real())]
+        .into_iter()
+        .collect::<HashMap<_, _>>();
+    let algos = [
+        Algo::Dijkstra,
+        Algo::SingleVia {
+            k: 3,
+            under: Box::new(Algo::Dijkstra),
+            sim: Some(crate::props::search_common::Sim::EdgeCos(0.99)),
+            term: None,
+        },
+    ];
     for (ai, algo) in algos.iter().enumerate() {
         if ai == 1 && tier == Tier::Quick && ni % 3 != 0 {
             continue;
         }
-        let app = world.search_app(algo.real(), weights.clone(), rates.clone(), false, Arc::new(NoRestriction {}));
+        let app = world.search_app(
+            algo.real(),
+            weights.clone(),
+            rates.clone(),
+            false,
+            Arc::new(NoRestriction {}),
+        );
         // a query without destination yields trees and no route: with both renderings configured the response still carries
         // one tree entry per branch (plain search only: the k-shortest-paths algorithms need a destination)
         if ai == 0 {
@@ -155,7 +206,8 @@ pub fn check_net(scratch: &Scratch, net: &Net, ni: usize, tier: Tier, st: &mut S
                     Ok(p) => p,
                     Err(_) => continue,
                 };
-                let plugins: Vec<Arc<dyn OutputPlugin>> = vec![Arc::new(SummaryOutputPlugin {}), Arc::new(plugin)];
+                let plugins: Vec<Arc<dyn OutputPlugin>> =
+                    vec![Arc::new(SummaryOutputPlugin {}), Arc::new(plugin)];
                 let comp = format!("{}.tree_only_query", fname);
                 let case = || json!({"net": net, "format": fname, "query_without_destination": true, "net_index": ni});
                 let out = match guarded(|| apply_output_processing(&tq, result, &app, &plugins)) {
@@ -166,7 +218,13 @@ pub fn check_net(scratch: &Scratch, net: &Net, ni: usize, tier: Tier, st: &mut S
                     }
                 };
                 if out.get("error").is_some() {
-                    st.violation(&comp, "renders_without_error", net.size(), || out["error"].to_string(), case);
+                    st.violation(
+                        &comp,
+                        "renders_without_error",
+                        net.size(),
+                        || out["error"].to_string(),
+                        case,
+                    );
                     continue;
                 }
                 let want: usize = trees.iter().sum();
@@ -175,7 +233,13 @@ pub fn check_net(scratch: &Scratch, net: &Net, ni: usize, tier: Tier, st: &mut S
                     Some(t) => match *fname {
                         "edge_id" | "json" => t.as_array().map(|a| a.len()),
                         "geo_json" => t["features"].as_array().map(|a| a.len()),
-                        "wkt" => t.as_str().map(|s| if want == 0 { 0 } else { parse_wkt_coords(s).len() }),
+                        "wkt" => t.as_str().map(|s| {
+                            if want == 0 {
+                                0
+                            } else {
+                                parse_wkt_coords(s).len()
+                            }
+                        }),
                         _ => t.as_str().and_then(decode_wkb).map(|g| match g {
                             geo::Geometry::MultiLineString(m) => m.0.len(),
                             _ => usize::MAX,
@@ -185,7 +249,20 @@ pub fn check_net(scratch: &Scratch, net: &Net, ni: usize, tier: Tier, st: &mut S
                 if got == Some(want) || (want == 0 && got.is_none()) {
                     st.pass("tree_output_has_one_entry_per_branch");
                 } else {
-                    st.violation(&comp, "tree_output_has_one_entry_per_branch", net.size(), || format!("tree with {} branches rendered with {:?} entries: {}", want, got, out.get("tree").cloned().unwrap_or(Value::Null)), case);
+                    st.violation(
+                        &comp,
+                        "tree_output_has_one_entry_per_branch",
+                        net.size(),
+                        || {
+                            format!(
+                                "tree with {} branches rendered with {:?} entries: {}",
+                                want,
+                                got,
+                                out.get("tree").cloned().unwrap_or(Value::Null)
+                            )
+                        },
+                        case,
+                    );
                 }
             }
         }
@@ -193,55 +270,140 @@ pub fn check_net(scratch: &Scratch, net: &Net, ni: usize, tier: Tier, st: &mut S
         for (fname, fmt) in FORMATS.iter() {
             // the route and the tree renderings are configured independently: both together, and (with the short table)
             // each alone, so that an error raised by one rendering cannot hide a silent shortening in the other
-            for (short, do_route, do_tree) in [(false, true, true), (true, true, true), (true, true, false), (true, false, true)] {
+            for (short, do_route, do_tree) in [
+                (false, true, true),
+                (true, true, true),
+                (true, true, false),
+                (true, false, true),
+            ] {
                 st.evaluations += 1;
                 st.transitions += 1;
                 st.traces += 1;
                 let result = app.run(&query, &SearchOrientation::Vertex);
                 let (routes, trees): (Vec<Vec<usize>>, Vec<usize>) = match &result {
-                    Ok((r, _)) => (r.routes.iter().map(|rt| rt.iter().map(|e| e.edge_id.0).collect()).collect(), r.trees.iter().map(|t| t.len()).collect()),
+                    Ok((r, _)) => (
+                        r.routes
+                            .iter()
+                            .map(|rt| rt.iter().map(|e| e.edge_id.0).collect())
+                            .collect(),
+                        r.trees.iter().map(|t| t.len()).collect(),
+                    ),
                     Err(_) => continue,
                 };
                 if routes.iter().any(|r| r.len() >= 2) {
                     st.nontrivial += 1;
                 }
                 let core_routes: Vec<Vec<(usize, f64, f64, Vec<f64>)>> = match &result {
-                    Ok((r, _)) => r.routes.iter().map(|rt| rt.iter().map(|e| (e.edge_id.0, e.access_cost.as_f64(), e.traversal_cost.as_f64(), e.result_state.iter().map(|s| s.0).collect())).collect()).collect(),
+                    Ok((r, _)) => r
+                        .routes
+                        .iter()
+                        .map(|rt| {
+                            rt.iter()
+                                .map(|e| {
+                                    (
+                                        e.edge_id.0,
+                                        e.access_cost.as_f64(),
+                                        e.traversal_cost.as_f64(),
+                                        e.result_state.iter().map(|s| s.0).collect(),
+                                    )
+                                })
+                                .collect()
+                        })
+                        .collect(),
                     Err(_) => vec![],
                 };
                 let tree_edges: Vec<Vec<usize>> = match &result {
-                    Ok((r, _)) => r.trees.iter().map(|t| t.values().map(|b| b.edge_traversal.edge_id.0).collect()).collect(),
+                    Ok((r, _)) => r
+                        .trees
+                        .iter()
+                        .map(|t| t.values().map(|b| b.edge_traversal.edge_id.0).collect())
+                        .collect(),
                     Err(_) => vec![],
                 };
-                let plugin = match TraversalPlugin::from_file(if short { &gshort } else { &gfile }, if do_route { Some(*fmt) } else { None }, if do_tree { Some(*fmt) } else { None }) {
+                let plugin = match TraversalPlugin::from_file(
+                    if short { &gshort } else { &gfile },
+                    if do_route { Some(*fmt) } else { None },
+                    if do_tree { Some(*fmt) } else { None },
+                ) {
                     Ok(p) => p,
                     Err(e) => {
                         if short && m == 1 {
                             continue;
                         }
-                        st.violation("traversal_plugin", "builds", net.size(), || e.to_string(), || json!({"net": net}));
+                        st.violation(
+                            "traversal_plugin",
+                            "builds",
+                            net.size(),
+                            || e.to_string(),
+                            || json!({"net": net}),
+                        );
                         continue;
                     }
                 };
                 let uuid = match UUIDOutputPlugin::from_file(&ufile) {
                     Ok(p) => p,
                     Err(e) => {
-                        st.violation("uuid_plugin", "builds", net.size(), || e.to_string(), || json!({"net": net}));
+                        st.violation(
+                            "uuid_plugin",
+                            "builds",
+                            net.size(),
+                            || e.to_string(),
+                            || json!({"net": net}),
+                        );
                         continue;
                     }
                 };
-                let plugins: Vec<Arc<dyn OutputPlugin>> = vec![Arc::new(SummaryOutputPlugin {}), Arc::new(plugin), Arc::new(uuid)];
-                let out = match guarded(|| apply_output_processing(&query, result, &app, &plugins)) {
+                let plugins: Vec<Arc<dyn OutputPlugin>> = vec![
+                    Arc::new(SummaryOutputPlugin {}),
+                    Arc::new(plugin),
+                    Arc::new(uuid),
+                ];
+                let out = match guarded(|| apply_output_processing(&query, result, &app, &plugins))
+                {
                     Ok(o) => o,
                     Err(p) => {
-                        st.violation(&format!("{}.{}", fname, if ai == 0 { "single_route" } else { "several_routes" }), "no_panic", net.size(), || p.clone(), || json!({"net": net, "format": fname}));
+                        st.violation(
+                            &format!(
+                                "{}.{}",
+                                fname,
+                                if ai == 0 {
+                                    "single_route"
+                                } else {
+                                    "several_routes"
+                                }
+                            ),
+                            "no_panic",
+                            net.size(),
+                            || p.clone(),
+                            || json!({"net": net, "format": fname}),
+                        );
                         continue;
                     }
                 };
-                let comp = format!("{}.{}{}{}", fname, if ai == 0 { "single_route" } else { "several_routes" }, if short { ".geometry_table_one_row_short" } else { "" }, match (do_route, do_tree) { (true, false) => ".route_only", (false, true) => ".tree_only", _ => "" });
+                let comp = format!(
+                    "{}.{}{}{}",
+                    fname,
+                    if ai == 0 {
+                        "single_route"
+                    } else {
+                        "several_routes"
+                    },
+                    if short {
+                        ".geometry_table_one_row_short"
+                    } else {
+                        ""
+                    },
+                    match (do_route, do_tree) {
+                        (true, false) => ".route_only",
+                        (false, true) => ".tree_only",
+                        _ => "",
+                    }
+                );
                 let size = net.size();
                 let case = || json!({"net": net, "format": fname, "algo": algo, "geometry_table_one_row_short": short, "render_route": do_route, "render_tree": do_tree, "geometries": geoms, "uuids": spec.uuids, "uuid_file_gzip": ni % 2 == 0, "net_index": ni});
-                let uses_missing = short && ((do_route && routes.iter().any(|r| r.contains(&(m - 1)))) || (do_tree && tree_edges.iter().any(|t| t.contains(&(m - 1)))));
+                let uses_missing = short
+                    && ((do_route && routes.iter().any(|r| r.contains(&(m - 1))))
+                        || (do_tree && tree_edges.iter().any(|t| t.contains(&(m - 1)))));
                 let needs_geometry = matches!(*fname, "geo_json" | "wkt" | "wkb");
                 if out.get("error").is_some() {
                     if uses_missing && needs_geometry {
@@ -249,12 +411,30 @@ pub fn check_net(scratch: &Scratch, net: &Net, ni: usize, tier: Tier, st: &mut S
                     } else if !do_route || routes.iter().all(|r| r.is_empty()) {
                         // an empty route (origin = destination) is turned into an error by the plugin; outside this property
                     } else {
-                        st.violation(&comp, "renders_without_error", size, || out["error"].to_string(), case);
+                        st.violation(
+                            &comp,
+                            "renders_without_error",
+                            size,
+                            || out["error"].to_string(),
+                            case,
+                        );
                     }
                     continue;
                 }
                 if uses_missing && needs_geometry {
-                    st.violation(&comp, "missing_geometry_is_error_response", size, || format!("rendered {} although edge {} has no stored geometry", out.get("route").cloned().unwrap_or(Value::Null), m - 1), case);
+                    st.violation(
+                        &comp,
+                        "missing_geometry_is_error_response",
+                        size,
+                        || {
+                            format!(
+                                "rendered {} although edge {} has no stored geometry",
+                                out.get("route").cloned().unwrap_or(Value::Null),
+                                m - 1
+                            )
+                        },
+                        case,
+                    );
                     continue;
                 }
                 // route(s): a single route is an object, several an array
@@ -265,51 +445,110 @@ pub fn check_net(scratch: &Scratch, net: &Net, ni: usize, tier: Tier, st: &mut S
                 };
                 if !do_route {
                     if !rendered.is_empty() {
-                        st.violation(&comp, "no_route_rendering_unless_configured", size, || out["route"].to_string(), case);
+                        st.violation(
+                            &comp,
+                            "no_route_rendering_unless_configured",
+                            size,
+                            || out["route"].to_string(),
+                            case,
+                        );
                     }
                 } else if rendered.len() != routes.len() {
-                    st.violation(&comp, "one_rendering_per_route", size, || format!("{} routes, {} renderings", routes.len(), rendered.len()), case);
+                    st.violation(
+                        &comp,
+                        "one_rendering_per_route",
+                        size,
+                        || format!("{} routes, {} renderings", routes.len(), rendered.len()),
+                        case,
+                    );
                     continue;
                 }
                 let mut all_ok = do_route;
-                for (ri, (r, ids)) in rendered.iter().zip(routes.iter()).enumerate().filter(|_| do_route) {
+                for (ri, (r, ids)) in rendered
+                    .iter()
+                    .zip(routes.iter())
+                    .enumerate()
+                    .filter(|_| do_route)
+                {
                     let path = &r["path"];
-                    let want_geom: Vec<(f32, f32)> = ids.iter().flat_map(|e| geoms[*e].clone()).collect();
+                    let want_geom: Vec<(f32, f32)> =
+                        ids.iter().flat_map(|e| geoms[*e].clone()).collect();
                     let ok = match *fname {
-                        "edge_id" => path.as_array().map_or(false, |a| a.iter().map(|x| x.as_u64().map(|v| v as usize)).collect::<Option<Vec<_>>>() == Some(ids.clone())),
+                        "edge_id" => path.as_array().map_or(false, |a| {
+                            a.iter()
+                                .map(|x| x.as_u64().map(|v| v as usize))
+                                .collect::<Option<Vec<_>>>()
+                                == Some(ids.clone())
+                        }),
                         "json" => path.as_array().map_or(false, |a| {
                             a.len() == ids.len()
-                                && a.iter().zip(core_routes[ri].iter()).all(|(x, (e, ac, tc, stv))| {
-                                    x["edge_id"].as_u64() == Some(*e as u64)
-                                        && x["access_cost"].as_f64() == Some(*ac)
-                                        && x["traversal_cost"].as_f64() == Some(*tc)
-                                        && x["result_state"].as_array().map_or(false, |s| s.iter().map(|v| v.as_f64().unwrap_or(f64::NAN)).collect::<Vec<_>>() == *stv)
-                                })
+                                && a.iter().zip(core_routes[ri].iter()).all(
+                                    |(x, (e, ac, tc, stv))| {
+                                        x["edge_id"].as_u64() == Some(*e as u64)
+                                            && x["access_cost"].as_f64() == Some(*ac)
+                                            && x["traversal_cost"].as_f64() == Some(*tc)
+                                            && x["result_state"].as_array().map_or(false, |s| {
+                                                s.iter()
+                                                    .map(|v| v.as_f64().unwrap_or(f64::NAN))
+                                                    .collect::<Vec<_>>()
+                                                    == *stv
+                                            })
+                                    },
+                                )
                         }),
                         "geo_json" => path["features"].as_array().map_or(false, |fs| {
                             fs.len() == ids.len()
-                                && fs.iter().zip(core_routes[ri].iter()).all(|(f, (e, ac, tc, _))| {
-                                    let coords: Vec<(f64, f64)> = f["geometry"]["coordinates"].as_array().map_or(vec![], |c| c.iter().map(|p| (p[0].as_f64().unwrap_or(f64::NAN), p[1].as_f64().unwrap_or(f64::NAN))).collect());
-                                    f["id"].as_u64() == Some(*e as u64)
-                                        && f["properties"]["edge_id"].as_u64() == Some(*e as u64)
-                                        && f["properties"]["access_cost"].as_f64() == Some(*ac)
-                                        && f["properties"]["traversal_cost"].as_f64() == Some(*tc)
-                                        && f["geometry"]["type"] == json!("LineString")
-                                        && same_coords(&coords, &geoms[*e])
-                                })
+                                && fs.iter().zip(core_routes[ri].iter()).all(
+                                    |(f, (e, ac, tc, _))| {
+                                        let coords: Vec<(f64, f64)> = f["geometry"]["coordinates"]
+                                            .as_array()
+                                            .map_or(vec![], |c| {
+                                                c.iter()
+                                                    .map(|p| {
+                                                        (
+                                                            p[0].as_f64().unwrap_or(f64::NAN),
+                                                            p[1].as_f64().unwrap_or(f64::NAN),
+                                                        )
+                                                    })
+                                                    .collect()
+                                            });
+                                        f["id"].as_u64() == Some(*e as u64)
+                                            && f["properties"]["edge_id"].as_u64()
+                                                == Some(*e as u64)
+                                            && f["properties"]["access_cost"].as_f64() == Some(*ac)
+                                            && f["properties"]["traversal_cost"].as_f64()
+                                                == Some(*tc)
+                                            && f["geometry"]["type"] == json!("LineString")
+                                            && same_coords(&coords, &geoms[*e])
+                                    },
+                                )
                         }),
                         "wkt" => path.as_str().map_or(false, |s| {
                             let ls = parse_wkt_coords(s);
-                            s.starts_with("LINESTRING") && ls.len() == 1 && same_coords(&ls[0], &want_geom)
+                            s.starts_with("LINESTRING")
+                                && ls.len() == 1
+                                && same_coords(&ls[0], &want_geom)
                         }),
-                        _ => path.as_str().and_then(decode_wkb).map_or(false, |g| match g {
-                            geo::Geometry::LineString(ls) => same_coords(&ls.0.iter().map(|c| (c.x, c.y)).collect::<Vec<_>>(), &want_geom),
-                            _ => false,
-                        }),
+                        _ => path
+                            .as_str()
+                            .and_then(decode_wkb)
+                            .map_or(false, |g| match g {
+                                geo::Geometry::LineString(ls) => same_coords(
+                                    &ls.0.iter().map(|c| (c.x, c.y)).collect::<Vec<_>>(),
+                                    &want_geom,
+                                ),
+                                _ => false,
+                            }),
                     };
                     if !ok {
                         all_ok = false;
-                        st.violation(&comp, "route_rendering_follows_edge_sequence", size, || format!("route #{} edges {:?} rendered as {}", ri, ids, path), case);
+                        st.violation(
+                            &comp,
+                            "route_rendering_follows_edge_sequence",
+                            size,
+                            || format!("route #{} edges {:?} rendered as {}", ri, ids, path),
+                            case,
+                        );
                     }
                     // summary = state after the last edge
                     if let Some((_, _, _, last_state)) = core_routes[ri].last() {
@@ -317,7 +556,13 @@ pub fn check_net(scratch: &Scratch, net: &Net, ni: usize, tier: Tier, st: &mut S
                         if ts == last_state.first().copied() {
                             st.pass("summary_is_last_state");
                         } else {
-                            st.violation(&comp, "summary_is_last_state", size, || format!("summary {:?} last state {:?}", ts, last_state), case);
+                            st.violation(
+                                &comp,
+                                "summary_is_last_state",
+                                size,
+                                || format!("summary {:?} last state {:?}", ts, last_state),
+                                case,
+                            );
                         }
                     }
                 }
@@ -326,14 +571,24 @@ pub fn check_net(scratch: &Scratch, net: &Net, ni: usize, tier: Tier, st: &mut S
                 }
                 // trees: exactly one entry per branch
                 let rendered_trees: Vec<Value> = match out.get("tree") {
-                    Some(Value::Array(a)) if trees.len() > 1 && *fname != "edge_id" && *fname != "json" => a.clone(),
+                    Some(Value::Array(a))
+                        if trees.len() > 1 && *fname != "edge_id" && *fname != "json" =>
+                    {
+                        a.clone()
+                    }
                     Some(Value::Array(a)) if trees.len() > 1 => a.clone(),
                     Some(Value::Null) | None => vec![],
                     Some(x) => vec![x.clone()],
                 };
                 if !do_tree {
                     if !rendered_trees.is_empty() {
-                        st.violation(&comp, "no_tree_rendering_unless_configured", size, || out["tree"].to_string(), case);
+                        st.violation(
+                            &comp,
+                            "no_tree_rendering_unless_configured",
+                            size,
+                            || out["tree"].to_string(),
+                            case,
+                        );
                     }
                 } else if rendered_trees.len() == trees.len() {
                     let mut ok = true;
@@ -341,7 +596,13 @@ pub fn check_net(scratch: &Scratch, net: &Net, ni: usize, tier: Tier, st: &mut S
                         let got = match *fname {
                             "edge_id" | "json" => t.as_array().map(|a| a.len()),
                             "geo_json" => t["features"].as_array().map(|a| a.len()),
-                            "wkt" => t.as_str().map(|s| if *want == 0 { 0 } else { parse_wkt_coords(s).len() }),
+                            "wkt" => t.as_str().map(|s| {
+                                if *want == 0 {
+                                    0
+                                } else {
+                                    parse_wkt_coords(s).len()
+                                }
+                            }),
                             _ => t.as_str().and_then(decode_wkb).map(|g| match g {
                                 geo::Geometry::MultiLineString(m) => m.0.len(),
                                 _ => usize::MAX,
@@ -349,28 +610,72 @@ pub fn check_net(scratch: &Scratch, net: &Net, ni: usize, tier: Tier, st: &mut S
                         };
                         if got != Some(*want) {
                             ok = false;
-                            st.violation(&comp, "tree_output_has_one_entry_per_branch", size, || format!("tree with {} branches rendered with {:?} entries", want, got), case);
+                            st.violation(
+                                &comp,
+                                "tree_output_has_one_entry_per_branch",
+                                size,
+                                || {
+                                    format!(
+                                        "tree with {} branches rendered with {:?} entries",
+                                        want, got
+                                    )
+                                },
+                                case,
+                            );
                         }
                     }
                     if ok {
                         st.pass("tree_output_has_one_entry_per_branch");
                     }
                 } else {
-                    st.violation(&comp, "one_rendering_per_tree", size, || format!("{} trees, {} renderings", trees.len(), rendered_trees.len()), case);
+                    st.violation(
+                        &comp,
+                        "one_rendering_per_tree",
+                        size,
+                        || format!("{} trees, {} renderings", trees.len(), rendered_trees.len()),
+                        case,
+                    );
                 }
                 // identifiers and counters
                 let uu = spec.uuids.as_ref().unwrap();
-                if out["origin_vertex_uuid"] == json!(uu[0]) && out["destination_vertex_uuid"] == json!(uu[n - 1]) {
+                if out["origin_vertex_uuid"] == json!(uu[0])
+                    && out["destination_vertex_uuid"] == json!(uu[n - 1])
+                {
                     st.pass("uuids_are_those_of_matched_vertices");
                 } else {
-                    st.violation(&comp, "uuids_are_those_of_matched_vertices", size, || format!("{} / {}", out["origin_vertex_uuid"], out["destination_vertex_uuid"]), case);
+                    st.violation(
+                        &comp,
+                        "uuids_are_those_of_matched_vertices",
+                        size,
+                        || {
+                            format!(
+                                "{} / {}",
+                                out["origin_vertex_uuid"], out["destination_vertex_uuid"]
+                            )
+                        },
+                        case,
+                    );
                 }
                 if !(do_route && do_tree) {
                     // the summary plugin is judged with both renderings present
-                } else if out["route_edges"].as_u64() == Some(routes.iter().map(|r| r.len()).sum::<usize>() as u64) && out["tree_size_count"].as_u64() == Some(trees.iter().sum::<usize>() as u64) {
+                } else if out["route_edges"].as_u64()
+                    == Some(routes.iter().map(|r| r.len()).sum::<usize>() as u64)
+                    && out["tree_size_count"].as_u64() == Some(trees.iter().sum::<usize>() as u64)
+                {
                     st.pass("summary_counters");
                 } else {
-                    st.violation(&comp, "summary_counters", size, || format!("route_edges {} tree_size_count {}", out["route_edges"], out["tree_size_count"]), case);
+                    st.violation(
+                        &comp,
+                        "summary_counters",
+                        size,
+                        || {
+                            format!(
+                                "route_edges {} tree_size_count {}",
+                                out["route_edges"], out["tree_size_count"]
+                            )
+                        },
+                        case,
+                    );
                 }
                 if ni == 11 && !short {
                     st.sample(5, || json!({"net": net, "format": fname, "rendered_route": out.get("route").and_then(|r| r.get("path")).cloned().unwrap_or(Value::Null)}));
@@ -382,14 +687,26 @@ pub fn check_net(scratch: &Scratch, net: &Net, ni: usize, tier: Tier, st: &mut S
                 st.evaluations += 1;
                 st.transitions += 3;
                 st.traces += 1;
-                let mk = |r: bool, t: bool| TraversalPlugin::from_file(&gfile, if r { Some(*fmt) } else { None }, if t { Some(*fmt) } else { None }).ok().map(|p| Arc::new(p) as Arc<dyn OutputPlugin>);
+                let mk = |r: bool, t: bool| {
+                    TraversalPlugin::from_file(
+                        &gfile,
+                        if r { Some(*fmt) } else { None },
+                        if t { Some(*fmt) } else { None },
+                    )
+                    .ok()
+                    .map(|p| Arc::new(p) as Arc<dyn OutputPlugin>)
+                };
                 let render = |chain: Vec<Arc<dyn OutputPlugin>>| {
                     let result = app.run(&query, &SearchOrientation::Vertex);
                     guarded(|| apply_output_processing(&query, result, &app, &chain))
                 };
                 let paths = |o: &Value| -> (Value, Value) {
                     let route = match o.get("route") {
-                        Some(Value::Array(a)) => Value::Array(a.iter().map(|r| r.get("path").cloned().unwrap_or(Value::Null)).collect()),
+                        Some(Value::Array(a)) => Value::Array(
+                            a.iter()
+                                .map(|r| r.get("path").cloned().unwrap_or(Value::Null))
+                                .collect(),
+                        ),
                         Some(r) => r.get("path").cloned().unwrap_or(Value::Null),
                         None => Value::Null,
                     };
@@ -399,10 +716,21 @@ pub fn check_net(scratch: &Scratch, net: &Net, ni: usize, tier: Tier, st: &mut S
                     let tree_shape = json!({"null": tree.is_null(), "string": tree.is_string(), "size": tree.to_string().len()});
                     (route, tree_shape)
                 };
-                if let (Some(both), Some(r1), Some(t1)) = (mk(true, true), mk(true, false), mk(false, true)) {
+                if let (Some(both), Some(r1), Some(t1)) =
+                    (mk(true, true), mk(true, false), mk(false, true))
+                {
                     let summary: Arc<dyn OutputPlugin> = Arc::new(SummaryOutputPlugin {});
                     let one = render(vec![summary.clone(), both]);
-                    for (name, chain) in [("route_then_tree", vec![summary.clone(), r1.clone(), t1.clone()]), ("tree_then_route", vec![summary.clone(), t1.clone(), r1.clone()])] {
+                    for (name, chain) in [
+                        (
+                            "route_then_tree",
+                            vec![summary.clone(), r1.clone(), t1.clone()],
+                        ),
+                        (
+                            "tree_then_route",
+                            vec![summary.clone(), t1.clone(), r1.clone()],
+                        ),
+                    ] {
                         let comp = format!("{}.two_traversal_plugins.{}", fname, name);
                         let case = || json!({"net": net, "format": fname, "algo": algo, "two_traversal_plugins": name, "net_index": ni});
                         match (&one, &render(chain)) {
@@ -414,8 +742,12 @@ pub fn check_net(scratch: &Scratch, net: &Net, ni: usize, tier: Tier, st: &mut S
                                 }
                             }
                             (Ok(_), Ok(_)) => {}
-                            (_, Err(p)) => st.violation(&comp, "no_panic", net.size(), || p.clone(), case),
-                            (Err(p), _) => st.violation(&comp, "no_panic", net.size(), || p.clone(), case),
+                            (_, Err(p)) => {
+                                st.violation(&comp, "no_panic", net.size(), || p.clone(), case)
+                            }
+                            (Err(p), _) => {
+                                st.violation(&comp, "no_panic", net.size(), || p.clone(), case)
+                            }
                         }
                     }
                 }
@@ -430,22 +762,46 @@ pub fn check_net(scratch: &Scratch, net: &Net, ni: usize, tier: Tier, st: &mut S
                     continue;
                 }
                 if let Ok(plugin) = TraversalPlugin::from_file(&gfile, Some(*fmt), Some(*fmt)) {
-                    let chain: Vec<Arc<dyn OutputPlugin>> = vec![Arc::new(SummaryOutputPlugin {}), Arc::new(plugin)];
+                    let chain: Vec<Arc<dyn OutputPlugin>> =
+                        vec![Arc::new(SummaryOutputPlugin {}), Arc::new(plugin)];
                     for (qi, q) in [&query, &heavy, &query].into_iter().enumerate() {
                         st.evaluations += 1;
                         st.transitions += 1;
                         st.traces += 1;
                         let result = app.run(q, &SearchOrientation::Vertex);
                         let core: Vec<Vec<(usize, f64, f64)>> = match &result {
-                            Ok((r, _)) => r.routes.iter().map(|rt| rt.iter().map(|e| (e.edge_id.0, e.access_cost.as_f64(), e.traversal_cost.as_f64())).collect()).collect(),
+                            Ok((r, _)) => r
+                                .routes
+                                .iter()
+                                .map(|rt| {
+                                    rt.iter()
+                                        .map(|e| {
+                                            (
+                                                e.edge_id.0,
+                                                e.access_cost.as_f64(),
+                                                e.traversal_cost.as_f64(),
+                                            )
+                                        })
+                                        .collect()
+                                })
+                                .collect(),
                             Err(_) => break,
                         };
                         if core.iter().all(|r| r.is_empty()) {
                             break;
                         }
-                        let comp = format!("{}.{}.plugin_that_rendered_before", fname, if ai == 0 { "single_route" } else { "several_routes" });
+                        let comp = format!(
+                            "{}.{}.plugin_that_rendered_before",
+                            fname,
+                            if ai == 0 {
+                                "single_route"
+                            } else {
+                                "several_routes"
+                            }
+                        );
                         let case = || json!({"net": net, "format": fname, "algo": algo, "plugin_reused": true, "rendering_number": qi, "query": q, "net_index": ni});
-                        let out = match guarded(|| apply_output_processing(q, result, &app, &chain)) {
+                        let out = match guarded(|| apply_output_processing(q, result, &app, &chain))
+                        {
                             Ok(o) => o,
                             Err(p) => {
                                 st.violation(&comp, "no_panic", net.size(), || p.clone(), case);
@@ -453,7 +809,13 @@ pub fn check_net(scratch: &Scratch, net: &Net, ni: usize, tier: Tier, st: &mut S
                             }
                         };
                         if out.get("error").is_some() {
-                            st.violation(&comp, "renders_without_error", net.size(), || out["error"].to_string(), case);
+                            st.violation(
+                                &comp,
+                                "renders_without_error",
+                                net.size(),
+                                || out["error"].to_string(),
+                                case,
+                            );
                             break;
                         }
                         let rendered: Vec<Value> = match out.get("route") {
@@ -465,10 +827,29 @@ pub fn check_net(scratch: &Scratch, net: &Net, ni: usize, tier: Tier, st: &mut S
                             && rendered.iter().zip(core.iter()).all(|(r, c)| {
                                 let path = &r["path"];
                                 match *fname {
-                                    "edge_id" => path.as_array().map_or(false, |a| a.len() == c.len() && a.iter().zip(c.iter()).all(|(x, (e, _, _))| x.as_u64() == Some(*e as u64))),
-                                    "json" => path.as_array().map_or(false, |a| a.len() == c.len() && a.iter().zip(c.iter()).all(|(x, (e, ac, tc))| x["edge_id"].as_u64() == Some(*e as u64) && x["access_cost"].as_f64() == Some(*ac) && x["traversal_cost"].as_f64() == Some(*tc))),
+                                    "edge_id" => path.as_array().map_or(false, |a| {
+                                        a.len() == c.len()
+                                            && a.iter()
+                                                .zip(c.iter())
+                                                .all(|(x, (e, _, _))| x.as_u64() == Some(*e as u64))
+                                    }),
+                                    "json" => path.as_array().map_or(false, |a| {
+                                        a.len() == c.len()
+                                            && a.iter().zip(c.iter()).all(|(x, (e, ac, tc))| {
+                                                x["edge_id"].as_u64() == Some(*e as u64)
+                                                    && x["access_cost"].as_f64() == Some(*ac)
+                                                    && x["traversal_cost"].as_f64() == Some(*tc)
+                                            })
+                                    }),
                                     "geo_json" => path["features"].as_array().map_or(false, |a| {
-                                        a.len() == c.len() && a.iter().zip(c.iter()).all(|(f, (e, ac, tc))| f["id"].as_u64() == Some(*e as u64) && f["properties"]["access_cost"].as_f64() == Some(*ac) && f["properties"]["traversal_cost"].as_f64() == Some(*tc))
+                                        a.len() == c.len()
+                                            && a.iter().zip(c.iter()).all(|(f, (e, ac, tc))| {
+                                                f["id"].as_u64() == Some(*e as u64)
+                                                    && f["properties"]["access_cost"].as_f64()
+                                                        == Some(*ac)
+                                                    && f["properties"]["traversal_cost"].as_f64()
+                                                        == Some(*tc)
+                                            })
                                     }),
                                     // the geometry formats carry no records; their geometry is judged above
                                     _ => path.is_string(),
@@ -504,27 +885,71 @@ fn app_level(scratch: &Scratch, st: &mut Stats) {
         let case = || json!({"app_level": true, "format": fname});
         match spec.build(&dir) {
             Err(e) => st.violation("harness", "app_build", 0, || e.clone(), case),
-            Ok(app) => match guarded(|| app.run(vec![json!({"origin_vertex": 0, "destination_vertex": 4})], None)) {
+            Ok(app) => match guarded(|| {
+                app.run(
+                    vec![json!({"origin_vertex": 0, "destination_vertex": 4})],
+                    None,
+                )
+            }) {
                 Ok(Ok(r)) if r.len() == 1 && r[0].get("error").is_none() => {
                     let path = &r[0]["route"]["path"];
-                    let want: Vec<(f32, f32)> = [0usize, 1, 4].iter().flat_map(|e| spec.geometry(*e)).collect();
+                    let want: Vec<(f32, f32)> = [0usize, 1, 4]
+                        .iter()
+                        .flat_map(|e| spec.geometry(*e))
+                        .collect();
                     let ok = match *fname {
                         "edge_id" => *path == json!([0, 1, 4]),
-                        "json" => path.as_array().map_or(false, |a| a.iter().map(|x| x["edge_id"].as_u64().unwrap_or(99)).collect::<Vec<_>>() == vec![0, 1, 4]),
-                        "geo_json" => path["features"].as_array().map_or(false, |a| a.iter().map(|x| x["id"].as_u64().unwrap_or(99)).collect::<Vec<_>>() == vec![0, 1, 4]),
-                        "wkt" => path.as_str().map_or(false, |s| parse_wkt_coords(s).first().map_or(false, |c| same_coords(c, &want))),
-                        _ => path.as_str().and_then(decode_wkb).map_or(false, |g| match g {
-                            geo::Geometry::LineString(ls) => same_coords(&ls.0.iter().map(|c| (c.x, c.y)).collect::<Vec<_>>(), &want),
-                            _ => false,
+                        "json" => path.as_array().map_or(false, |a| {
+                            a.iter()
+                                .map(|x| x["edge_id"].as_u64().unwrap_or(99))
+                                .collect::<Vec<_>>()
+                                == vec![0, 1, 4]
                         }),
+                        "geo_json" => path["features"].as_array().map_or(false, |a| {
+                            a.iter()
+                                .map(|x| x["id"].as_u64().unwrap_or(99))
+                                .collect::<Vec<_>>()
+                                == vec![0, 1, 4]
+                        }),
+                        "wkt" => path.as_str().map_or(false, |s| {
+                            parse_wkt_coords(s)
+                                .first()
+                                .map_or(false, |c| same_coords(c, &want))
+                        }),
+                        _ => path
+                            .as_str()
+                            .and_then(decode_wkb)
+                            .map_or(false, |g| match g {
+                                geo::Geometry::LineString(ls) => same_coords(
+                                    &ls.0.iter().map(|c| (c.x, c.y)).collect::<Vec<_>>(),
+                                    &want,
+                                ),
+                                _ => false,
+                            }),
                     };
-                    if ok && r[0]["origin_vertex_uuid"] == json!("uuid-0") && r[0]["destination_vertex_uuid"] == json!("uuid-4") && r[0]["route"]["traversal_summary"]["distance"].as_f64() == Some(19000.0) {
+                    if ok
+                        && r[0]["origin_vertex_uuid"] == json!("uuid-0")
+                        && r[0]["destination_vertex_uuid"] == json!("uuid-4")
+                        && r[0]["route"]["traversal_summary"]["distance"].as_f64() == Some(19000.0)
+                    {
                         st.pass("application_renders_route");
                     } else {
-                        st.violation(&format!("app.{}", fname), "route_rendering_follows_edge_sequence", 0, || r[0].to_string(), case);
+                        st.violation(
+                            &format!("app.{}", fname),
+                            "route_rendering_follows_edge_sequence",
+                            0,
+                            || r[0].to_string(),
+                            case,
+                        );
                     }
                 }
-                other => st.violation(&format!("app.{}", fname), "renders_without_error", 0, || format!("{:?}", other), case),
+                other => st.violation(
+                    &format!("app.{}", fname),
+                    "renders_without_error",
+                    0,
+                    || format!("{:?}", other),
+                    case,
+                ),
             },
         }
     }
@@ -534,8 +959,22 @@ pub fn run(tier: Tier) -> i32 {
     let info = RunInfo::new("C20", tier);
     let scratch = Scratch::new("c20");
     let specs = vec![
-        GenSpec { n: 3, max_edges: tier.pick(4, 5), max_mult: 2, n_len: 1, self_loops: false, mode: LenMode::PowersOfTwo },
-        GenSpec { n: 4, max_edges: tier.pick(5, 6), max_mult: 1, n_len: 1, self_loops: false, mode: LenMode::PowersOfTwo },
+        GenSpec {
+            n: 3,
+            max_edges: tier.pick(4, 5),
+            max_mult: 2,
+            n_len: 1,
+            self_loops: false,
+            mode: LenMode::PowersOfTwo,
+        },
+        GenSpec {
+            n: 4,
+            max_edges: tier.pick(5, 6),
+            max_mult: 1,
+            n_len: 1,
+            self_loops: false,
+            mode: LenMode::PowersOfTwo,
+        },
     ];
     let mut nets = vec![];
     for s in specs.iter() {
@@ -562,11 +1001,16 @@ pub fn run(tier: Tier) -> i32 {
     let long: Vec<Net> = [1023usize, 1024, 1100]
         .iter()
         .map(|l| {
-            let mut edges: Vec<(usize, usize, f64)> = (0..*l).map(|i| (i, i + 1, 1.0 + (i % 7) as f64)).collect();
+            let mut edges: Vec<(usize, usize, f64)> =
+                (0..*l).map(|i| (i, i + 1, 1.0 + (i % 7) as f64)).collect();
             // a branch off the middle that rejoins further on (a second, dearer way) and a dead end
             edges.push((l / 2, l / 2 + 2, 40.0));
             edges.push((l / 3, l + 1, 1.0));
-            Net { n: l + 2, edges, xy: None }
+            Net {
+                n: l + 2,
+                edges,
+                xy: None,
+            }
         })
         .collect();
     for (i, net) in long.iter().enumerate() {
@@ -574,13 +1018,22 @@ pub fn run(tier: Tier) -> i32 {
         let l = net.n - 2;
         let mut net = net.clone();
         for e in net.edges.iter_mut() {
-            let sw = |v: usize| if v == l { l + 1 } else if v == l + 1 { l } else { v };
+            let sw = |v: usize| {
+                if v == l {
+                    l + 1
+                } else if v == l + 1 {
+                    l
+                } else {
+                    v
+                }
+            };
             *e = (sw(e.0), sw(e.1), e.2);
         }
         // (the index decides the table variants; single-via alternatives only on the first chain in the quick tier)
         check_net(&scratch, &net, 3 * (100_000 + i) + i.min(1), tier, &mut st);
     }
-    st.notes.insert("long routes: chains of 1023, 1024 and 1100 edges rendered in every format".into());
+    st.notes
+        .insert("long routes: chains of 1023, 1024 and 1100 edges rendered in every format".into());
     app_level(&scratch, &mut st);
     let desc: Vec<String> = specs.iter().map(|s| s.describe()).collect();
     finish(
@@ -596,7 +1049,11 @@ pub fn run(tier: Tier) -> i32 {
 pub fn replay(case: &Value) -> i32 {
     // the recorded network is rendered again in every format, with every table variant (its index decides the identifier
     // table variant, so it is part of the case); application-level cases re-run the application pass
-    let c = if case.get("case").is_some() { &case["case"] } else { case };
+    let c = if case.get("case").is_some() {
+        &case["case"]
+    } else {
+        case
+    };
     let scratch = Scratch::new("c20r");
     let mut st = Stats::new();
     if c.get("app_level").is_some() {
@@ -613,9 +1070,18 @@ pub fn replay(case: &Value) -> i32 {
         check_net(&scratch, &net, ni, Tier::Thorough, &mut st);
     }
     for (k, g) in st.violations.iter() {
-        println!("REPLAY-VIOLATION {} ({} cases) {}", k, g.count, g.detail.chars().take(500).collect::<String>());
+        println!(
+            "REPLAY-VIOLATION {} ({} cases) {}",
+            k,
+            g.count,
+            g.detail.chars().take(500).collect::<String>()
+        );
     }
-    println!("replay: {} violated clauses over {} renderings", st.violations.len(), st.evaluations);
+    println!(
+        "replay: {} violated clauses over {} renderings",
+        st.violations.len(),
+        st.evaluations
+    );
     if st.violations.is_empty() {
         0
     } else {
